@@ -6,8 +6,9 @@
                      `_begin/_update/_end` method, i.e. also every operation fired by automation —
                      keeps `CardInv` (the six places together are a permutation of the deck; the table of
                      hands has one row per player), provided
-                       (a) the pending operation names known cards only, and a show names none
-                           (`CleanHead`: `None` / a count / known cards; `None` / `True` / `False`),
+                       (a) the pending operation names known cards only, and a show leaves no unknown card
+                           in the hand (`CleanHead`: `None` / a count / known cards; `None` / `True` / `False`
+                           / named cards that, with the cards kept, fill the hand),
                        (b) the step raises no dealability warning (`warned = false`),
                        (c) the step does not end in an escaping exception,
                        (d) a discard happens with a street index inside the table of discards
@@ -25,20 +26,26 @@
   play leave the piles exactly once, whichever pile they are in and whether or not the reserve is
   shuffled back under the deck first.
 -/
-import PK.Proofs.CardsOps
+import PK.Proofs.CardsShow
 import PK.Properties.C07
 namespace PK
 open State M
 
 variable {cfg : Config} {env : Env}
 
-/-- (a): the pending operation names known cards only, and a show names no cards -/
-def CleanHead (m : M) : Prop :=
+/-- a show with named cards leaves no unknown card in the hand (it names a card for every slot, or happens
+    before the last street, where the cards not named are kept) -/
+def ShowKnown (cfg : Config) (env : Env) (s : State) : ShowArg → Option Nat → Prop
+  | .cards cs, i => ∀ v, s.verifyShow cfg env (.cards cs) i = .ok v → ∀ c ∈ v.val.holeCards, c.known = true
+  | _, _ => True
+
+/-- (a): the pending operation names known cards only, and a show leaves no unknown card in the hand -/
+def CleanHead (cfg : Config) (env : Env) (m : M) : Prop :=
   match m.ctl with
   | .opBurn a :: _ => a.clean
   | .opDealHole a _ :: _ => a.clean
   | .opDealBoard a :: _ => a.clean
-  | .opShow a _ :: _ => a.plain
+  | .opShow a i :: _ => ShowKnown cfg env m.st a i
   | _ => True
 
 theorem C06_init' (hshuf : ∀ l, (env.shuffle l).Perm l) : CardInv cfg (setup cfg env) :=
@@ -46,7 +53,7 @@ theorem C06_init' (hshuf : ∀ l, (env.shuffle l).Perm l) : CardInv cfg (setup c
 
 /-- **one micro-step keeps every card in exactly one place** -/
 theorem C06_step (hd : DeckOk cfg) (hshuf : ∀ l, (env.shuffle l).Perm l) (m : M) (h : CardInv cfg m.st)
-    (hc : CleanHead m) (hr : DrawInRange m)
+    (hc : CleanHead cfg env m) (hr : DrawInRange m)
     (hw : (step cfg env m).warned = false) (herr : (step cfg env m).err = none) :
     CardInv cfg (step cfg env m).st := by
   cases hctl : m.ctl with
@@ -65,13 +72,17 @@ theorem C06_step (hd : DeckOk cfg) (hshuf : ∀ l, (env.shuffle l).Perm l) (m : 
       case opDraw cs => exact cstep_opDraw hd m h cs rest' hctl hr
       case opFold => exact cstep_opFold m h rest' hctl
       case opKill i => exact cstep_opKill m h i rest' hctl
-      case opShow a i => exact cstep_opShow hd m h a i rest' hctl hc
+      case opShow a i =>
+        cases a with
+        | cards cs => exact cstep_opShow_cards hd hshuf m h cs i rest' hctl hc hw
+        | none => exact cstep_opShow hd m h .none i rest' hctl trivial
+        | status b => exact cstep_opShow hd m h (.status b) i rest' hctl trivial
 
 /-- histories: from the constructor, by micro-steps satisfying (a)–(d) and by public operations (any
     operation, any arguments) issued at quiescent points -/
 inductive CardReach (cfg : Config) (env : Env) : M → Prop where
   | init : CardReach cfg env { st := setup cfg env, ctl := [.beginAnte] }
-  | step {m} : CardReach cfg env m → CleanHead m → DrawInRange m →
+  | step {m} : CardReach cfg env m → CleanHead cfg env m → DrawInRange m →
       (step cfg env m).warned = false → (step cfg env m).err = none → CardReach cfg env (step cfg env m)
   | op {m} (o : Ctl) : CardReach cfg env m → m.ctl = [] →
       CardReach cfg env { m with ctl := [o], err := none, warned := false }
